@@ -5,6 +5,8 @@ import FeatModel.Lemmas.C12Protocol
 import FeatModel.Lemmas.C12Split
 import FeatModel.Lemmas.C12Neighbour
 import FeatModel.Lemmas.C12Iter
+import FeatModel.Lemmas.C12SplitComplete
+import FeatModel.Lemmas.C12IterAssign
 /-!
 # C12 — partitions cover each cell once; neighbouring patches agree on their interface
 
@@ -27,7 +29,10 @@ set) in every dimension, neighbour completeness/symmetry (dim ≤ 3) are proved 
 for both shape families (simplex / hypercube), for the topology-free (simple) target refiner that patch parts and halos
 use; only `_partial`: `C12.refinement_partial` names the one remaining observed fact (the refined patch MESH is the
 patch of the refined base mesh - C10's index refiner).  `PartiIterative`: the deterministic core (distance function,
-constructor for given centres) is modelled and compared; the mutation loop and the time seed are not.
+constructor for given centres) is modelled and compared, the precondition of finding F1 is characterised in general
+(`iterative_F1_iff`); the mutation loop and the time seed are not modelled, a general non-emptiness theorem is open.
+Two-layer path (`PatchHaloSplitter`): agreement (`child_halo_agree`), completeness (`child_halo_complete`) and
+pair-only dependence (`child_halo_pair_only`) are proved.
 -/
 open FeatModel.Adj FeatModel.Parti
 
@@ -325,6 +330,90 @@ theorem C12.child_halo_agree (m : Mesh) (p : Parti) (childOf : List Nat) (hm : m
   unfold haloBase toBase at h
   exact childHalo_agree_of _ _ _ _ _ _ h
 
+/-- level 0, every dimension `d ≤ dim` (cells included): the halo in base indices is exactly the intersection of the
+two patch parts -/
+theorem C12.halo_complete (m : Mesh) (p : Parti) (hm : m.consistent = true) (hp : p.wf = true) (r s d e : Nat)
+    (hd : d ≤ m.dim) :
+    e ∈ haloBase m p r s d ↔ e ∈ m.target (p.row r) d ∧ e ∈ m.target (p.row s) d := by
+  rcases Nat.lt_or_eq_of_le hd with h | h
+  · rw [C12.halo_spec m p hm hp r s d e h, C12.patch_entities m p hm r d e h, C12.patch_entities m p hm s d e h]
+  · subst h
+    rw [haloBase_eq_filter, List.mem_filter, hasRank_dim, target_dim, target_dim]
+    constructor
+    · rintro ⟨h1, _, h2⟩; exact ⟨h1, h2⟩
+    · rintro ⟨h1, h2⟩; exact ⟨h1, wf_row_lt p hp s e h2, h2⟩
+
+/-- **the split halos are complete**: the halo of child `(a,ch)` towards child `(b,dh)` (in base-mesh indices) contains
+exactly the base entities that belong to both child patches - the analogue of `halo_spec`/`halo_complete` for the
+two-layer path; together with `child_halo_agree` (same order on both sides) this is the interface clause of the
+property for `PatchHaloSplitter` -/
+theorem C12.child_halo_complete (m : Mesh) (p : Parti) (childOf : List Nat) (hm : m.consistent = true)
+    (hp : isPartition p = true) (a ch b dh d e : Nat) (hab : a ≠ b) (hd : d ≤ m.dim) :
+    e ∈ (childHalo m p childOf a ch b dh d).map (childToBase m p childOf a ch d) ↔
+      e ∈ (childTarget m (p.row a) childOf ch d).map (fun u => (m.target (p.row a) d).getD u 0) ∧
+      e ∈ (childTarget m (p.row b) childOf dh d).map (fun u => (m.target (p.row b) d).getD u 0) := by
+  have hwf : p.wf = true := by
+    simp only [isPartition, Bool.and_eq_true] at hp
+    exact hp.1
+  have hagree := C12.halo_agree m p hm hp a b d hab hd
+  unfold haloBase toBase at hagree
+  have hlen : (halo m p a b d).length = (halo m p b a d).length := by
+    have := congrArg List.length hagree
+    simpa using this
+  have hel : ∀ i, i < (halo m p a b d).length →
+      (m.target (p.row a) d).getD ((halo m p a b d).getD i 0) 0 =
+        (m.target (p.row b) d).getD ((halo m p b a d).getD i 0) 0 := by
+    intro i hi
+    have hi' : i < (halo m p b a d).length := by omega
+    have := congrArg (fun l => l[i]?) hagree
+    simp only [List.getElem?_map, List.getElem?_eq_getElem hi, List.getElem?_eq_getElem hi', Option.map_some,
+      Option.some.injEq] at this
+    simpa [List.getD, hi, hi'] using this
+  have hclosed := childHalo_closed (childTarget m (p.row a) childOf ch d) (childTarget m (p.row b) childOf dh d)
+    (halo m p a b d) (halo m p b a d) (fun x => (m.target (p.row a) d).getD x 0)
+  have hL : (childHalo m p childOf a ch b dh d).map (childToBase m p childOf a ch d) = _ := hclosed
+  rw [hL]
+  simp only [List.mem_filterMap, List.mem_range, List.mem_map]
+  constructor
+  · rintro ⟨i, hi, hie⟩
+    by_cases hc : ((childTarget m (p.row a) childOf ch d).contains ((halo m p a b d).getD i 0) &&
+        (decide (i < (halo m p b a d).length) &&
+          (childTarget m (p.row b) childOf dh d).contains ((halo m p b a d).getD i 0))) = true
+    · rw [if_pos hc, Option.some.injEq] at hie
+      simp only [Bool.and_eq_true, List.contains_iff_mem, decide_eq_true_eq] at hc
+      exact ⟨⟨_, hc.1, hie⟩, ⟨_, hc.2.2, by rw [← hel i hi]; exact hie⟩⟩
+    · rw [if_neg hc] at hie
+      exact absurd hie (by simp)
+  · rintro ⟨⟨u, hu, hue⟩, ⟨w, hw, hwe⟩⟩
+    have hu' := mem_childTarget_lt m (p.row a) childOf ch d u hd hu
+    have hw' := mem_childTarget_lt m (p.row b) childOf dh d w hd hw
+    have heA : e ∈ m.target (p.row a) d := by rw [← hue]; exact getD_mem_of_lt _ _ hu'
+    have heB : e ∈ m.target (p.row b) d := by rw [← hwe]; exact getD_mem_of_lt _ _ hw'
+    have hin := (C12.halo_complete m p hm hwf a b d e hd).2 ⟨heA, heB⟩
+    rw [haloBase, List.mem_map] at hin
+    obtain ⟨h, hh, hhe⟩ := hin
+    obtain ⟨i, hi, hih⟩ := List.getElem_of_mem hh
+    have hgi : (halo m p a b d).getD i 0 = h := by simp [List.getD, hi, hih]
+    have hi' : i < (halo m p b a d).length := by omega
+    have hhlt := mem_halo_lt m p a b d h hh
+    have hhu : h = u := by
+      apply nodup_getD_inj (C12.patch_injective m p hp a d hd) h u hhlt hu'
+      rw [hue]; exact hhe
+    have hb_mem : (halo m p b a d).getD i 0 ∈ halo m p b a d := by
+      simp [List.getD, hi']
+    have hblt := mem_halo_lt m p b a d _ hb_mem
+    have hbw : (halo m p b a d).getD i 0 = w := by
+      apply nodup_getD_inj (C12.patch_injective m p hp b d hd) _ w hblt hw'
+      rw [← hel i hi, hgi, hwe]; exact hhe
+    refine ⟨i, hi, ?_⟩
+    have hc : ((childTarget m (p.row a) childOf ch d).contains ((halo m p a b d).getD i 0) &&
+        (decide (i < (halo m p b a d).length) &&
+          (childTarget m (p.row b) childOf dh d).contains ((halo m p b a d).getD i 0))) = true := by
+      simp only [Bool.and_eq_true, List.contains_iff_mem, decide_eq_true_eq]
+      exact ⟨by rw [hgi, hhu]; exact hu, hi', by rw [hbw]; exact hw⟩
+    rw [if_pos hc, hgi]
+    exact congrArg some hhe
+
 /-- the form of `childHalo` the driver executes (parent halos and child target sets computed once) -/
 theorem C12.childHalo_eq_from (m : Mesh) (p : Parti) (childOf : List Nat) (a ch b dh d : Nat) :
     childHalo m p childOf a ch b dh d =
@@ -468,6 +557,24 @@ theorem C12.iterative_outcome (nb : List (List Int)) (n thr : Nat) (centres : Li
       exact cellsPerPatch_length _ _
     · rw [if_neg hu] at h
       exact absurd h (by simp)
+
+/-- **general precondition of finding F1**: the constructor reads an uninitialised patch index if and only if some cell
+has the distance `Index(max)` from EVERY centre (it lies beyond the exploration threshold of all centres or in a
+component without centre); the distance lists always have one entry per cell -/
+theorem C12.iterative_F1_iff (nb : List (List Int)) (n thr : Nat) (centres : List Nat) :
+    (iterIndividual nb n thr centres = none ↔
+      ∃ i, i < n ∧ ∀ c ∈ centres, ¬ (iterDistance nb n thr c).getD i 0 < idxMax) ∧
+    (∀ c, (iterDistance nb n thr c).length = n) := by
+  refine ⟨?_, fun c => iterDistance_length nb n thr c⟩
+  rw [(C12.iterative_outcome nb n thr centres).1]
+  constructor
+  · intro hne
+    obtain ⟨i, hi⟩ := List.exists_mem_of_ne_nil _ hne
+    obtain ⟨h1, h2⟩ := (mem_unassigned_iff nb n thr _ i).1 hi
+    exact ⟨i, h1, fun c hc => h2 c ((mem_sortList c centres).2 hc)⟩
+  · rintro ⟨i, h1, h2⟩
+    exact List.ne_nil_of_mem ((mem_unassigned_iff nb n thr _ i).2
+      ⟨h1, fun c hc => h2 c ((mem_sortList c centres).1 hc)⟩)
 
 /-- open finding F1 as a statement about the model: on a CONNECTED 9x1 strip with 3 requested patches (exploration
 threshold 4) and the centres 0,1,2, cell 8 is reached by no centre - the constructor uses an uninitialised index -/
